@@ -85,6 +85,11 @@ def main():
             na.append(dict(property_id=pid, reason=NOT_CLAIMED.get(pid, "check not built yet (work in progress; planned in DESIGN.md §4)")))
             continue
         tech, text, note, ref = CHECKS[pid]
+        # what every check gained while it was built (DESIGN.md 9.5 / 9.6), judged by the same oracle as the small-scope search
+        text = text.rstrip() + (" Added while building (DESIGN.md 9.5): second-use probes (the same object or process used again with other content), "
+                                "row order and row labels as an axis of every list read, a size family of deterministic large instances crossing 16/256/1024 rows "
+                                "(evidence: coverage.bound.size_family)" + (", and the file entry points differential (read_file/write_file vs read/write)." if pid in ("C01", "C02", "C03", "C04", "C05", "C06", "C07") else "."))
+        ref = ref + "; DESIGN.md §9.4-9.6"
         checks.append(
             dict(
                 property_id=pid,
